@@ -16,3 +16,35 @@ def run_bounded(run, pid, module=None):
         b = BoundedResult(f"{pid}.bounded", "bounded stand-in crashed")
         b.errors.append(f"{type(e).__name__}: {e}\n{traceback.format_exc(limit=6)}")
         run.bounded.append(b)
+
+
+LEAN_CHECKED = ["reach_induction", "reach_trans", "reach_sym", "reach_common", "reach_mono", "psum_monotone", "psum_congruence", "count_lemma"]
+
+
+def run_lean(run):
+    """thorough tier: machine-check the code-independent lemmas of /verif/lemmas/Lemmas.lean with Lean 4 + Mathlib (the hand transcription
+    between the Lean statements and the SMT axioms stays trusted).  A Lean error is a checker error (exit 3), never a violation."""
+    import os
+    import shutil
+    import subprocess
+
+    from vlib.runner import VERIF
+
+    if run.tier != "thorough":
+        run.notes.append("lemmas of lemmas/Lemmas.lean are machine-checked by Lean in the thorough tier only")
+        return
+    lean = shutil.which("lean")
+    if lean is None:
+        run.notes.append("lean not on PATH: lemmas not machine-checked in this run")
+        return
+    t0 = time.time()
+    try:
+        p = subprocess.run([lean, os.path.join(VERIF, "lemmas", "Lemmas.lean")], capture_output=True, text=True, timeout=1500)
+    except subprocess.TimeoutExpired:
+        run.notes.append("lean timed out: lemmas not machine-checked in this run")
+        return
+    if p.returncode != 0 or "error" in (p.stdout + p.stderr):
+        run.crashes.append("Lean rejected lemmas/Lemmas.lean: " + (p.stdout + p.stderr)[:600])
+    else:
+        run.notes.append(f"Lean 4 + Mathlib accepted lemmas/Lemmas.lean ({', '.join(LEAN_CHECKED)}) in {time.time() - t0:.0f}s")
+    run.lean_checked = list(LEAN_CHECKED) if not run.crashes else []
